@@ -68,6 +68,7 @@ macro_rules! conv_harness {
         }
     };
 }
+// ALSO: C02
 conv_harness!(c15_to_int8, to_int8, spec::to_int8);
 conv_harness!(c15_to_uint8, to_uint8, spec::to_uint8);
 conv_harness!(c15_to_int16, to_int16, spec::to_int16);
@@ -76,6 +77,7 @@ conv_harness!(c15_to_i32, to_i32, spec::to_int32);
 conv_harness!(c15_to_u32, to_u32, spec::to_uint32);
 
 // FN: JsValue::to_uint8_clamp
+// ALSO: C02
 #[kani::proof]
 #[kani::stub(crate::value::JsValue::to_number, to_number_stub)]
 fn c15_to_uint8_clamp() {
